@@ -3,6 +3,7 @@ package kv
 import (
 	"bytes"
 	"context"
+	"encoding/json"
 	"fmt"
 	"os"
 	"path/filepath"
@@ -318,6 +319,10 @@ type Obs struct {
 	RevID  string            `json:"revid,omitempty"` // $document.revid (JSON string)
 	DocV   string            `json:"docv,omitempty"`  // $document
 	Panic  string            `json:"panic,omitempty"`
+	GetErr     string `json:"getErr,omitempty"` // Get(key, *[]byte)
+	GetCas     uint64 `json:"getCas"`
+	GetBody    []byte `json:"getBody"`
+	GetJSONErr string `json:"getJsonErr,omitempty"` // Get(key, *any): decodes JSON bodies
 }
 
 var virtNames = []string{"$document", "$document.revid"}
@@ -335,6 +340,19 @@ func ReadBack(c *rosmar.Collection, key string) (o Obs) {
 	o.RawErr = ErrClass(err)
 	o.Exists, err = c.Exists(key)
 	o.ExErr = ErrClass(err)
+	var gb []byte
+	o.GetCas, err = c.Get(key, &gb)
+	o.GetErr, o.GetBody = ErrClass(err), gb
+	if err == nil && len(gb) > 0 && (gb[0] == '{' || gb[0] == '[' || gb[0] == '"' || (gb[0] >= '0' && gb[0] <= '9')) && json.Valid(gb) {
+		var v any
+		_, err = c.Get(key, &v)
+		o.GetJSONErr = ErrClass(err)
+		if err == nil {
+			if rb, merr := json.Marshal(v); merr != nil || !jsonEqual(rb, gb) {
+				o.GetJSONErr = "decoded value differs from the stored JSON"
+			}
+		}
+	}
 	o.Exp, err = c.GetExpiry(ctx, key)
 	o.ExpErr = ErrClass(err)
 	var gx map[string][]byte
@@ -387,6 +405,8 @@ func (o *Obs) Diff(p *Obs) string {
 		return "$document"
 	case o.Panic != p.Panic:
 		return "panic"
+	case o.GetErr != p.GetErr || !bytes.Equal(o.GetBody, p.GetBody) || (o.GetErr == "" && o.GetCas != p.GetCas):
+		return "Get"
 	}
 	return ""
 }
